@@ -160,11 +160,15 @@ fn shape_strategy() -> impl Strategy<Value = Shape> {
 
 fn field_decl(f: &Field, idx: usize, with_attr: bool, force_pub: bool) -> String {
     let mut s = String::new();
-    if with_attr && f.marked {
+    if with_attr {
+        // other attributes (doc comment = name-value attribute, allow = list attribute) may precede
+        // the marker, and may sit on fields that are NOT marked
         if f.decorated {
             s += &format!("    /// field {idx}\n    #[allow(dead_code)]\n");
         }
-        s += "    #[animate]\n";
+        if f.marked {
+            s += "    #[animate]\n";
+        }
     }
     s += &format!("    {}x{idx}: {},\n", if force_pub { "pub " } else { f.vis.text() }, f.ty.name());
     s
@@ -581,6 +585,9 @@ pub fn c17(run: &mut Run) {
             if sh.fields.iter().any(|f| f.marked && f.decorated) {
                 bump("marker_after_doc_comment");
             }
+            if sh.fields.iter().any(|f| !f.marked && f.decorated) && sh.fields.iter().any(|f| f.marked) {
+                bump("other_attributes_on_excluded_field");
+            }
             evals += sh.sets.iter().map(|s| s.times.len() as u64).sum::<u64>();
         }
         total += shapes.len() as u64;
@@ -615,7 +622,7 @@ pub fn c17(run: &mut Run) {
         samples,
         t0.elapsed().as_secs_f64(),
     );
-    for k in ["remote", "mixed_animated_and_not", "no_field_marked", "marker_after_doc_comment"] {
+    for k in ["remote", "mixed_animated_and_not", "no_field_marked", "marker_after_doc_comment", "other_attributes_on_excluded_field"] {
         if classes.get(k).copied().unwrap_or(0) * 20 < total {
             run.health_fail(format!("c17 generator: class {k} on fewer than 5% of shapes"));
         }
